@@ -42,6 +42,8 @@ def run(idx: Index, rep: Report, tier: str):
     check_cirq_channel_block(idx, rep)
     check_forwarding(idx, rep)
     check_backend_init_forwarding(idx, rep)
+    check_get_backend_options(idx, rep)
+    check_qiskit_noise_dict(idx, rep)
     if tier == "thorough":
         check_other_translators(idx, rep)
 
@@ -82,6 +84,7 @@ def check_add_quantum_error(idx: Index, rep: Report):
         ("depol with a string", {}, "X", "depol", "0.1"),
         ("second pauli on the same gate", {"X": [("pauli", [0.1, 0.0, 0.0])]}, "X", "pauli", [0.2, 0.0, 0.0]),
         ("second depol on the same gate", {"CNOT": [("depol", 0.1)]}, "CNOT", "depol", 0.2),
+        ("second depol on the same gate, spelled in lower case", {"CNOT": [("depol", 0.1)]}, "cnot", "depol", 0.2),
     ]
     for label, existing, gate, ntype, params in bad_cases:
         res, me = run_one(existing, gate, ntype, params)
@@ -95,6 +98,9 @@ def check_add_quantum_error(idx: Index, rep: Report):
         ("depol added to a gate that has pauli", {"X": [("pauli", [0.1, 0.0, 0.0])]}, "X", "depol", 0.3,
          {"X": [("pauli", [0.1, 0.0, 0.0]), ("depol", 0.3)]}),
         ("pauli on another gate", {"X": [("depol", 0.1)]}, "Y", "pauli", [0.0, 0.1, 0.0], {"X": [("depol", 0.1)], "Y": [("pauli", [0.0, 0.1, 0.0])]}),
+        # Gate() upper-cases its name, and the translators look errors up by that name: a lower-case spelling means the same gate
+        ("gate name in lower case", {}, "cnot", "depol", 0.1, {"CNOT": [("depol", 0.1)]}),
+        ("gate name in mixed case, added to the upper-case entry", {"RX": [("depol", 0.1)]}, "Rx", "pauli", [0.1, 0.0, 0.0], {"RX": [("depol", 0.1), ("pauli", [0.1, 0.0, 0.0])]}),
     ]
     for label, existing, gate, ntype, params, want in good_cases:
         res, me = run_one(existing, gate, ntype, params)
@@ -410,3 +416,99 @@ def check_backend_init_forwarding(idx: Index, rep: Report):
                        reason=f"{c.name}.__init__ calls `{norm(call)}`: {pname} is {'passed as ' + bound[pname] if pname in bound else 'not passed'} - "
                               f"the base class then neither refuses an unsupported noise model nor stores it for the translation")
     rep.floor("backend constructors forwarding to the base class", n, 10)
+
+
+def check_get_backend_options(idx: Index, rep: Report):
+    """get_backend folded with the backend classes replaced by recorders: whichever way the target is named - left out, None, a built-in name, a Backend
+    subclass - the class is instantiated with the caller's n_shots, noise_model and extra options (the solvers ask for target=None with a noise model)"""
+    from ..consteval import FuncVal, Opaque, Raised, Rec, Undecidable
+    from ..rules import circuitsem as cs
+    rule = "K7.backend-options"
+    SIM = "tangelo/linq/simulator.py"
+    f = idx.function(f"{SIM}::get_backend")
+    NM = Rec("NoiseModel", {"tag": "the caller's noise model"})
+    n = 0
+    for label, target in (("target=None", None), ("target='cirq'", "cirq"), ("target='sympy'", "sympy"), ("a Backend subclass", "CLASS")):
+        made = []
+
+        def backend(tag):
+            class _B:
+                _sa_model = True
+                name = tag
+
+                def __call__(self, *a, **k):
+                    made.append((tag, a, k))
+                    return Rec("Backend", {"cls": tag})
+            return _B()
+        classes = {"cirq": backend("cirq"), "sympy": backend("sympy")}
+        user = backend("user")
+        from ..consteval import Folder
+        base = cs.module_resolver(idx, SIM)
+        inject = {"target_dict": classes, "default_simulator": "cirq"}
+        res = lambda name: inject[name] if name in inject else base(name)                   # seen by the function and by any call it makes to itself
+        fo = Folder(resolver=res, resolver_factory=lambda rel: res, isinstance_hook=lambda v, t: (isinstance(v, str) if t.strip() == "str" else None))
+        fo.ctors["issubclass"] = lambda a, k: getattr(a[0], "_sa_model", False) and a[0].name == "user"
+        args = {"target": user if target == "CLASS" else target, "n_shots": 7, "noise_model": NM, "kwargs": {"qubits_to_use": [1, 2]}}
+        try:
+            fo.run_function(f.node, args)
+        except Undecidable as e:
+            raise AnalysisError(f"get_backend not foldable for {label}: {e}")
+        except Raised as e:
+            rep.violation(rule, f, f.node, text=f"get_backend({label}, n_shots=7, noise_model=nm, qubits_to_use=[1, 2])", what="every way of naming the target yields a backend", reason=f"raises {e.exc_type}")
+            continue
+        n += 1
+        want_cls = {"target=None": "cirq", "target='cirq'": "cirq", "target='sympy'": "sympy", "a Backend subclass": "user"}[label]
+        last = made[-1] if made else None
+        ok = last is not None and last[0] == want_cls and last[2].get("n_shots") == 7 and last[2].get("noise_model") is NM and last[2].get("qubits_to_use") == [1, 2] and len(made) == 1
+        rep.decide(ok, rule, f, f.node, text=f"get_backend({label}, n_shots=7, noise_model=nm, qubits_to_use=[1, 2])",
+                   what="the backend class named by the target is instantiated once, with the caller's shot number, noise model and extra options",
+                   reason=f"instantiations: {[(t, sorted(k)) for t, _, k in made]}" + ("" if last is None or last[2].get("noise_model") is NM else " - the noise model is not handed over: the simulation is noiseless"))
+    rep.floor("get_backend target spellings folded", n, 4)
+
+
+def check_qiskit_noise_dict(idx: Index, rep: Report):
+    """get_qiskit_noise_dict folded on stand-in noise models (the error table only): (a) the model it reads is left as it was - the lists it stores per
+    gate are the model's own, a later cirq simulation with the same model must still apply exactly what was specified -; (b) a qiskit basis gate shared by
+    several abstract gates (u1/u2/u3 for RX, RY, RZ) receives every channel type specified on any of them, once."""
+    import copy
+    from ..consteval import Raised, Rec, Undecidable
+    from ..rules import circuitsem as cs
+    rule = "K1.noise-model-inputs"
+    NM = "tangelo/linq/noisy_simulation/noise_models.py"
+    f = idx.function(f"{NM}::get_qiskit_noise_dict")
+    try:
+        table = cs.fold_module_global(idx, NM, "__MAPPING_GATES_QISKIT")
+    except (Undecidable, Raised) as e:
+        raise AnalysisError(f"noise_models.__MAPPING_GATES_QISKIT not foldable: {e}")
+    if not isinstance(table, dict) or not table:
+        raise AnalysisError("noise_models.__MAPPING_GATES_QISKIT not resolvable to a literal table")
+    models = [
+        {"RX": [("depol", 0.1)], "RY": [("pauli", [0.1, 0.0, 0.0])]},
+        {"RZ": [("pauli", [0.0, 0.0, 0.2])], "RX": [("depol", 0.3)], "CNOT": [("depol", 0.05)]},
+        {"RX": [("depol", 0.1), ("pauli", [0.1, 0.1, 0.1])], "RY": [("depol", 0.2)], "H": [("pauli", [0.0, 0.1, 0.0])]},
+    ]
+    n = 0
+    for errs in models:
+        if not set(errs) <= set(table):
+            raise AnalysisError(f"test model uses gates outside the qiskit table: {sorted(set(errs) - set(table))}")
+        model = Rec("NoiseModel", {"_quantum_errors": copy.deepcopy(errs)})
+        from ..consteval import Folder
+        base = cs.module_resolver(idx, NM)
+        fo = Folder(resolver=lambda nm_: table if nm_ == "__MAPPING_GATES_QISKIT" else base(nm_), resolver_factory=lambda rel: cs.module_resolver(idx, rel))
+        try:
+            qnd = fo.run_function(f.node, {"noise_model": model})
+        except (Undecidable, Raised) as e:
+            raise AnalysisError(f"get_qiskit_noise_dict not foldable: {e}")
+        n += 1
+        rep.decide(model.fields["_quantum_errors"] == errs, rule, f, f.node, text=f"noise model {errs} is unchanged by the conversion",
+                   what="converting a noise model for another backend only reads it", reason=f"the model's error table is {model.fields['_quantum_errors']} after the call")
+        want = {}
+        for g, noises in errs.items():
+            for qg in table[g]:
+                have = {t for t, _ in want.setdefault(qg, [])}
+                want[qg] += [x for x in noises if x[0] not in have]
+        ok = isinstance(qnd, dict) and set(qnd) == set(want) and all(sorted(map(repr, qnd[k])) == sorted(map(repr, want[k])) for k in want)
+        rep.decide(ok, "K9.noise-merge", f, f.node, text=f"qiskit basis gates of {sorted(errs)}: every specified channel type reaches each shared basis gate once",
+                   what="a basis gate implementing several noisy abstract gates carries each channel type specified on any of them (first specification wins), none twice",
+                   reason=f"converted table {qnd}, expected {want}")
+    rep.floor("noise models converted", n, 3)
